@@ -208,9 +208,11 @@ def run_check(pid, tier, seed, replay=None):
     for h in ctx.known_hits:
         print(f"KNOWN-FINDING: property={pid} {h['what']}", flush=True)
     write_evidence(ctx, len(unlisted))
-    if fatal:
+    if fatal and not unlisted:
         print(f"[{pid}] check crashed (see traceback); this is a broken check, not a verdict", flush=True)
         return 2
+    if fatal:
+        print(f"[{pid}] check crashed after recording violations (see traceback); reporting what was found", flush=True)
     per_sig = {}
     unlisted_sorted = sorted(unlisted, key=lambda v: len(json.dumps(v["replay"], default=str)))
     for i, v in enumerate(unlisted_sorted):
